@@ -164,7 +164,7 @@ def check_batch(ctx, case) -> None:
 
 @st.composite
 def cases(draw, maxrows=12):
-    spec = draw(gen.engine(activation=gen.activation_general()))
+    spec = draw(gen.engine(activation=gen.activation_general(), functions=True))
     n = draw(st.sampled_from([1, 2, 3, 4, 6, 8, maxrows]))
     rows = [draw(gen.input_row(spec)) for _ in range(n)]
     if n >= 3 and draw(st.booleans()):  # plant a NaN row after a (probably) valid one
